@@ -216,6 +216,15 @@ func TestDrv_C17(t *testing.T) {
 		}
 		atks := make([]plotAtk, na)
 		r.Shuffle(len(names), func(i, j int) { names[i], names[j] = names[j], names[i] })
+		if p%6 == 1 || p%6 == 4 { // a name that a careless page would let close its script element
+			hostile := []string{"a</script><b>x", "x<!--<script>"}[p%2]
+			for i := range names {
+				if names[i] == hostile {
+					names[i] = names[0] // (keep the names distinct)
+				}
+			}
+			names[0] = hostile
+		}
 		down := p%4 == 3 // a plot with downsampling: strictly increasing instants, no ties
 		n := []int{1, 2, 3, 7, 40, 300}[r.Intn(6)]
 		if p%10 == 0 {
